@@ -219,3 +219,16 @@ Proof.
     do 7 (destruct i as [|i]; [cbn [nth]; unfold Rabs; destruct (Rcase_abs _); lra|]). lia.
   - unfold Rabs. destruct (Rcase_abs _); lra.
 Qed.
+
+(* aliases without name clash in Props/C06.v (which has its own rational exU) *)
+Definition exUR : list R := exU.
+Definition exXR : list R := exX.
+Example any_order_hypotheses_satisfiable_R :
+  (1 <= 2)%nat /\ sortedR exUR /\ (2 < length exPR)%nat /\ length exUR = (length exPR + 2 + 1)%nat /\
+  exXR <> [] /\ sortedR exXR /\ knR exUR 2 <= nth 0 exXR 0 /\ nth (length exXR - 1) exXR 0 < knR exUR (length exPR) /\
+  (forall x y, In x exXR -> In y (exXR ++ exUR) -> x < y -> 1/1000 <= y - x) /\
+  (forall x, In x exXR -> (count_occ Req_EM_T (exXR ++ exUR) x <= 2)%nat) /\
+  (forall i, (i < length exPR)%nat -> length (getp exPR i) = 2%nat) /\
+  0 <= 1/1000 /\ (forall x y, In x exXR -> In y (exXR ++ exUR) -> Rabs (x - y) <= 1/1000 -> y = x) /\ 0 <= 1/1000000 /\
+  Permutation (expand exSched) exXR.
+Proof. exact any_order_hypotheses_satisfiable. Qed.
